@@ -1,6 +1,7 @@
 import IoraModel.Lemmas.TimingWheel
 import IoraModel.Lemmas.TimerService
 import IoraModel.Lemmas.TimerHeap
+import IoraModel.Lemmas.TimerDrain
 import IoraModel.Gen.Timer
 /-!
 # C08 — Timers never fire early, twice, or after a successful cancel
@@ -20,12 +21,17 @@ open Iora Iora.Wheel
 
 /-- **Gen conformance (wheel).** The working tree has the shapes the model assumes: `schedule` re-tests `_accepting`
 under `_wheelMutex` (F32); `collectFromBucket` re-inserts when `deadline - now > _tickDuration` (F21); both bucket
-loops that may re-insert walk a detached vector (F22); `cascadeDown`/`drain` fire on `deadline <= now`. -/
+loops that may re-insert walk a detached vector (F22); `cascadeDown`/`drain` fire on `deadline <= now`.  Atomicity of the model's
+steps: every wheel function that reads or writes `_entryMap`, the buckets, the tick counters or `_lastAdvanceTime` declares
+`std::lock_guard lock(_wheelMutex)` BEFORE its first such access and in a scope that contains all of them
+(`wheelMutexSections`), and callbacks are fired outside every such scope. -/
 theorem G_wheel_shapes :
     Gen.Timer.wheelScheduleRechecksUnderLock = true ∧ Gen.Timer.wheelLevel0NotDueOp = ">" ∧ Gen.Timer.wheelLevel0NotDueRhs = "_tickDuration" ∧
     Gen.Timer.wheelLevel0Detached = true ∧ Gen.Timer.wheelCascadeDetached = true ∧ Gen.Timer.wheelCascadeDueOp = "<=" ∧
     Gen.Timer.wheelDrainDueOp = "<=" ∧ Gen.Timer.wheelCatchUpAbove = 1 ∧
-    Gen.Timer.wheelAdvanceOrder = ["collectFromBucket", "level0.currentTick++", "cascadeDown"] := by decide
+    Gen.Timer.wheelAdvanceOrder = ["collectFromBucket", "level0.currentTick++", "cascadeDown"] ∧
+    Gen.Timer.wheelMutexSections = ["schedule", "cancel", "reschedule", "advance", "start", "drain", "clearAllEntries", "reset", "pendingCount"] ∧
+    Gen.Timer.wheelFiresOutsideLock = true := by decide
 
 /-- **W6 (lifecycle order, Gen conformance).** `stop()` and `drain()` clear `_accepting` first, then join the tick thread
 (`stopTickThread`: flag, notify, join), and only then clear/collect the entries: once they return no tick thread exists,
@@ -40,6 +46,16 @@ on an existing level, so the default of `curAt` is never used. -/
 theorem W0_levels_in_range (c : Cfg) (hl : 0 < c.levels) (ops : List Op) :
     (run c ops).1.cur.length = c.levels ∧ ∀ e ∈ (run c ops).1.entries, e.level < c.levels :=
   ⟨(inv_run c ops).curLen, (inv_run c ops).lvl hl⟩
+
+/-- **W0' (valid geometries).** For a geometry the constructor accepts, the model's `% slots` is the code's `& _tickMask`
+(`_tickMask = ticksPerWheel - 1`), and there is at least one slot.  Invalid geometries (tick ≤ 0, slot count not a power of two, no
+level) are outside what the model claims about the C++; the wheel theorems below hold for them as statements about the model only. -/
+theorem W0_mask_is_mod (c : Cfg) (h : c.Valid) (n : Nat) : n &&& (c.slots - 1) = n % c.slots ∧ 0 < c.slots := by
+  obtain ⟨_, _, k, hk⟩ := h
+  rw [hk]
+  exact ⟨Nat.and_two_pow_sub_one_eq_mod n k, Nat.pow_pos (by decide)⟩
+
+example : (⟨10, 8, 2⟩ : Cfg).Valid := ⟨by decide, by decide, 3, rfl⟩
 
 /-- **W1 (conservation).** After every history, the ids still linked in the wheel together with the ids that have left
 it (fired, cancelled with `true`, drained, cleared by `stop`) are — as a multiset — exactly the ids handed out, and no id
@@ -214,7 +230,10 @@ open Iora.Tsvc
 both collect sites pre-announce `_executingCallbacks` inside the same locked block; `safeRun`'s guard decrements, then
 locks/unlocks `_mutex`, then notifies; a timed-out `drain` restores `_accepting` under `_mutex`; `stop()` clears `_accepting` under
 `_mutex` before it halts the loop and publishes Stopped + not-accepting together after the join (F23); periodic invocations go
-through the cancel guard (F41), which `cancel` closes for every periodic entry it finds — also one a `drain` sweep has already marked. -/
+through the cancel guard (F41), which `cancel` closes for every periodic entry it finds — also one a `drain` sweep has already marked.  Atomicity of the model's
+steps: every section the model treats as one step declares its `_mutex` lock before its first access to
+`_records/_periodicTimers/_heap/_nextId/_accepting/_lifecycleState` and in a scope containing all of them (`svcMutexSections`);
+handlers run outside every such scope; the restore `_accepting = true` sits INSIDE the braces of `if (CAS Draining → Running)`. -/
 theorem G_service_shapes :
     Gen.Timer.svcScheduleAtRechecksUnderLock = true ∧ Gen.Timer.svcSchedulePeriodicRechecksUnderLock = true ∧
     Gen.Timer.svcCancelOrder = ["lock", "records.find", "canceled=true", "periodic.erase"] ∧
@@ -224,7 +243,10 @@ theorem G_service_shapes :
     Gen.Timer.svcSafeRunOrder = ["fetch_sub", "lock-unlock", "notify_all"] ∧
     Gen.Timer.svcDrainRestoresAcceptingOnTimeout = true ∧ Gen.Timer.svcDrainSweepOp = ">" ∧
     Gen.Timer.svcStopClearsAccepting = true ∧ Gen.Timer.svcStopPublishesStoppedUnderLock = true ∧
-    Gen.Timer.svcPeriodicCancelGuard = true ∧ Gen.Timer.svcCancelClosesGuardAlways = true := by decide
+    Gen.Timer.svcPeriodicCancelGuard = true ∧ Gen.Timer.svcCancelClosesGuardAlways = true ∧
+    Gen.Timer.svcMutexSections = ["scheduleAt", "schedulePeriodic", "cancel", "drain.gate", "drain.sweep", "drain.wait", "drain.restore",
+      "stop.flag", "markStopped", "reset", "getInFlightCount", "runLoop.collect"] ∧
+    Gen.Timer.svcHandlersRunOutsideLock = true ∧ Gen.Timer.svcDrainRestoreInsideCas = true := by decide
 
 /-- **S1 (at most once, nothing collected is lost).** After every history, the invocations whose handler started, those skipped
 because `cancel` closed their guard, and those still waiting in the loop thread's `ready` list are — as a multiset — exactly
@@ -245,8 +267,8 @@ due (`tp ≤ now`); its time point is `t0 + k · iv` where `(t0, iv)` is what th
 alone — for `scheduleAt(tp)`: `t0 = tp`, `iv = 0`; for `schedulePeriodic(interval)` called at clock `t0`: `iv = interval` and
 `k = 1, 2, …` is the firing index.  Hence the k-th firing of a periodic timer happens no earlier than k intervals after it
 was scheduled. -/
-theorem S2_collected_is_due (L : Limits) (ops : List Tsvc.Op) (now : Int) :
-    ∀ e ∈ (collect (Tsvc.run L ops).1 now).2.1,
+theorem S2_collected_is_due (L : Limits) (ops : List Tsvc.Op) (now : Int) (atExit : Bool) :
+    ∀ e ∈ (collect (Tsvc.run L ops).1 now atExit).2.1,
       e.tp ≤ now ∧ e.tp = e.t0 + e.k * e.iv ∧ reqOf (Tsvc.run L ops).2 e.id = some (e.t0, e.iv) := by
   obtain ⟨w, i⟩ := Tsvc.inv_run L ops
   intro e he
@@ -280,7 +302,7 @@ waits in `ready`; a `drain` passes its gate and sweeps (P's periodic entry is no
 `cancel(P)` answers `true` and closes the guard; after A has returned the loop thread SKIPS P's invocation.  `rest` in S3a may
 contain any number of `drainGate / drainSweep / drainTimeout / drainRestore / stopFlag …` steps before and after the cancel. -/
 example :
-    let s := (Tsvc.run ⟨100, 10, 86400000000000⟩ [.schedAt 0 5000000, .schedPer 0 5000000, .collect 5000000, .hstart, .drainGate, .drainSweep 5000000 50000000]).1
+    let s := (Tsvc.run ⟨100, 10, 86400000000000⟩ [.schedAt 0 5000000, .schedPer 0 5000000, .collect 5000000 false, .hstart, .drainGate, .drainSweep 5000000 50000000]).1
     s.periodic.map (fun p => (p.id, p.canceled)) = [(2, true)] ∧ s.closed = [] ∧ s.ready.map (·.id) = [2] ∧
     (Tsvc.cancel s 2).2 = true ∧
     (hstart (hend (Tsvc.cancel s 2).1)).2.skippedId = some 2 := by decide
@@ -288,14 +310,14 @@ example :
 /-- **On record (seeded change C08-b).** If `cancel` closed the guard only on the transition `!entry.canceled` (the other possible
 position of the store, `cancelWith false`), the same history lets P's handler START after `cancel(P)` returned `true`. -/
 theorem S3_conditional_close_witness :
-    let s := (Tsvc.run ⟨100, 10, 86400000000000⟩ [.schedAt 0 5000000, .schedPer 0 5000000, .collect 5000000, .hstart, .drainGate, .drainSweep 5000000 50000000]).1
+    let s := (Tsvc.run ⟨100, 10, 86400000000000⟩ [.schedAt 0 5000000, .schedPer 0 5000000, .collect 5000000 false, .hstart, .drainGate, .drainSweep 5000000 50000000]).1
     (Tsvc.cancelWith false s 2).2 = true ∧
     (hstart (hend (Tsvc.cancelWith false s 2).1)).2.startedId = some 2 := by decide
 
 /-- non-vacuity (the F41 window): a one-shot and a periodic timer are collected together; the one-shot handler is running, the
 periodic invocation waits in `ready`; `cancel` of the periodic timer answers `true` -/
-example : (Tsvc.cancel (Tsvc.run ⟨100, 10, 86400000000000⟩ [.schedAt 0 5000000, .schedPer 0 5000000, .collect 5000000, .hstart]).1 2).2 = true ∧
-          (Tsvc.run ⟨100, 10, 86400000000000⟩ [.schedAt 0 5000000, .schedPer 0 5000000, .collect 5000000, .hstart]).1.ready.map (·.id) = [2] := by decide
+example : (Tsvc.cancel (Tsvc.run ⟨100, 10, 86400000000000⟩ [.schedAt 0 5000000, .schedPer 0 5000000, .collect 5000000 false, .hstart]).1 2).2 = true ∧
+          (Tsvc.run ⟨100, 10, 86400000000000⟩ [.schedAt 0 5000000, .schedPer 0 5000000, .collect 5000000 false, .hstart]).1.ready.map (·.id) = [2] := by decide
 
 /-- **S3b (failed cancel).** If `cancel(id)` answers `false`, no live record and no periodic entry of that id exists: the timer was
 never issued, was cancelled before (by `cancel` or by a `drain` sweep), or has already been collected — and a collected
@@ -321,10 +343,10 @@ theorem S3_false_means_not_pending (L : Limits) (ops : List Tsvc.Op) (id : Nat) 
 
 /-- **S3c (never silently dropped).** A record leaves `_records` only inside `collect`, and then it is either handed over (it was
 live) or it had been cancelled; no other step removes a record. -/
-theorem S3_record_accounting (L : Limits) (ops : List Tsvc.Op) (now : Int) :
+theorem S3_record_accounting (L : Limits) (ops : List Tsvc.Op) (now : Int) (atExit : Bool) :
     ∀ r ∈ (Tsvc.run L ops).1.records,
-      r ∈ (collect (Tsvc.run L ops).1 now).1.records ∨ (r.canceled = false ∧ r.hnd ∈ (collect (Tsvc.run L ops).1 now).2.1) ∨
-      (r.canceled = true ∧ r ∈ (collect (Tsvc.run L ops).1 now).2.2) := by
+      r ∈ (collect (Tsvc.run L ops).1 now atExit).1.records ∨ (r.canceled = false ∧ r.hnd ∈ (collect (Tsvc.run L ops).1 now atExit).2.1) ∨
+      (r.canceled = true ∧ r ∈ (collect (Tsvc.run L ops).1 now atExit).2.2) := by
   obtain ⟨w, i⟩ := Tsvc.inv_run L ops
   intro r hr
   unfold collect
@@ -332,7 +354,7 @@ theorem S3_record_accounting (L : Limits) (ops : List Tsvc.Op) (now : Int) :
   · exact Or.inl hr
   · exact (collect_spec _ _ now w i).acct r hr
 
-theorem S3_other_steps_keep_records (L : Limits) (s : Svc) (op : Tsvc.Op) (hop : ∀ now, op ≠ .collect now) :
+theorem S3_other_steps_keep_records (L : Limits) (s : Svc) (op : Tsvc.Op) (hop : ∀ now ax, op ≠ .collect now ax) :
     ∀ r ∈ s.records, ∃ r' ∈ (Tsvc.step L s op).1.records, r'.id = r.id ∧ r'.tp = r.tp :=
   records_kept L s op hop
 
@@ -388,7 +410,69 @@ theorem S4_stop_waits_for_handlers (L : Limits) (ops : List Tsvc.Op) (h : (stopF
 
 /-- non-vacuity: a complete stop with a handler collected on the exit path -/
 example : (stopFinish (Tsvc.run ⟨100, 10, 86400000000000⟩
-    [.schedAt 0 1000000, .drainGate, .drainSweep 0 5000000000, .stopFlag, .stopHalt, .collect 2000000, .hstart, .hend, .loopExit]).1).2 = true := by decide
+    [.schedAt 0 1000000, .drainGate, .drainSweep 0 5000000000, .stopFlag, .stopHalt, .collect 2000000 true, .hstart, .hend, .loopExit]).1).2 = true := by decide
+
+/-- **S4d (after a successful drain).** Once `drain()` has reported success, whatever any thread does afterwards (further drains, `stop`,
+`cancel`, the loop thread), no handler ever starts: the service is not accepting, not Running, every record is cancelled, nothing is
+collected or running — and every step preserves that. -/
+theorem S4_after_drain_nothing_starts (L : Limits) (ops : List Tsvc.Op) (rest : List Tsvc.Op) (h : (drainDone (Tsvc.run L ops).1).2 = true) :
+    started (Tsvc.trace L (drainDone (Tsvc.run L ops).1).1 rest) = [] :=
+  quiet_trace L rest _ (drainDone_quiet _ (Tsvc.inv_run L ops).1 (drainBusy_run L ops) h)
+
+/-- non-vacuity: a drain that succeeds after the last handler has finished -/
+example : (drainDone (Tsvc.run ⟨100, 10, 86400000000000⟩
+    [.schedAt 0 1000000, .drainGate, .drainSweep 0 5000000, .collect 1000000 false, .hstart, .hend]).1).2 = true := by decide
+
+/-! ### S3b: the clause that is false (finding FC08a) -/
+
+/-- **S3b, full clause** ("if cancel reports failure on a running service the handler has run or will run exactly once — a scheduled
+timer is never silently dropped while the service runs"), for one-shot timers: on a Running service, `cancel(id) = false` for an
+id that `scheduleAt` handed out means the invocation was collected (then it is started exactly once or still waiting, S1) or an
+earlier `cancel(id)` answered `true`. -/
+def C08_S3b_statement : Prop :=
+  ∀ (L : Limits) (ops : List Tsvc.Op) (id : Nat),
+    (Tsvc.run L ops).1.life = .running → id ∈ issued1 (Tsvc.run L ops).2 → (Tsvc.cancel (Tsvc.run L ops).1 id).2 = false →
+    id ∈ (collected (Tsvc.run L ops).2).map (·.id) ∨ id ∈ userCancelled (Tsvc.run L ops).2
+
+/-- the witness: timer 1 (3 ms, its handler is running) and timer 2 (one hour); `drain(5 ms)` passes its gate and sweeps — timer 2
+is beyond the drain deadline and is marked cancelled — then times out because handler 1 is still running, and restores
+Running + accepting.  Timer 2 is gone: `cancel(2)` answers `false`, it was never collected and nobody cancelled it. -/
+def S3b_witness : List Tsvc.Op :=
+  [.schedAt 0 3000000, .schedAt 0 3600000000000, .collect 3000000 false, .hstart, .drainGate, .drainSweep 3000000 5000000,
+   .drainTimeout, .drainRestore]
+
+/-- **S3b refuted (finding FC08a).** A `drain(timeout > 0)` that times out has already cancelled the far-future one-shot records (and
+marked every periodic entry) and then puts the service back to Running. -/
+theorem C08_S3b_refuted : ¬ C08_S3b_statement := by
+  intro h
+  have := h ⟨100, 10, 86400000000000⟩ S3b_witness 2 (by decide) (by decide) (by decide)
+  revert this
+  decide
+
+/-- the witness state is what the clause talks about: Running and accepting again, timer 2's record still there but cancelled -/
+example : (Tsvc.run ⟨100, 10, 86400000000000⟩ S3b_witness).1.life = .running ∧ (Tsvc.run ⟨100, 10, 86400000000000⟩ S3b_witness).1.accepting = true ∧
+    (Tsvc.run ⟨100, 10, 86400000000000⟩ S3b_witness).1.records.map (fun r => (r.id, r.canceled)) = [(2, true)] := by decide
+
+/-- **S3b, partial.** Without a `drain(timeout > 0)` sweep in the history (`noSweep`: every `drainSweep` step has `timeout ≤ 0`, i.e.
+`drain(0)`, or there is none) the clause holds in every state, Running or not: an issued one-shot id for which `cancel` answers
+`false` was collected or was cancelled by a `cancel` that answered `true`. -/
+theorem C08_S3b_partial (L : Limits) (ops : List Tsvc.Op) (id : Nat) (hns : noSweep ops)
+    (hi : id ∈ issued1 (Tsvc.run L ops).2) (hc : (Tsvc.cancel (Tsvc.run L ops).1 id).2 = false) :
+    id ∈ (collected (Tsvc.run L ops).2).map (·.id) ∨ id ∈ userCancelled (Tsvc.run L ops).2 := by
+  have n := noLoss_run L ops hns
+  rcases n.u2 id hi with ⟨r, hr, hrid⟩ | h' | h'
+  · exact Or.inr (hrid ▸ n.u1 r hr ((S3_false_means_not_pending L ops id hc).1 r hr hrid))
+  · exact Or.inl h'
+  · exact Or.inr h'
+
+/-- non-vacuity: a history with `drain(0)`, a collected timer and a successful cancel; `cancel` of the collected one answers `false` -/
+example : noSweep [.schedAt 0 1, .schedAt 0 9, .drainGate, .drainSweep 0 0, .collect 5 false, .cancel 2] ∧
+    (Tsvc.cancel (Tsvc.run ⟨100, 10, 86400000000000⟩ [.schedAt 0 1, .schedAt 0 9, .drainGate, .drainSweep 0 0, .collect 5 false, .cancel 2]).1 1).2 = false := by
+  refine ⟨?_, by decide⟩
+  intro op hm now t he
+  subst he
+  simp only [List.mem_cons, List.mem_nil_iff, or_false, reduceCtorEq, false_or, Op.drainSweep.injEq] at hm
+  omega
 
 /-- **S5a (heap order).** In every reachable state `_heap` is in heap order for `less` (no element is less than its parent), whatever
 sequence of `siftUp`/`siftDown`/`heapPop` produced it; so `_heap.front()` is a minimum. -/
